@@ -12,6 +12,7 @@ CONSTANTS
   Consumers = {"c1"}
   ThirdParty = {}
   WithDrain = FALSE
+  Acts = {"planadd", "plandel", "buy", "adv", "auto", "block", "epoch", "stale"}
   PriceVar = {0}
 INIT Init
 NEXT Next
